@@ -477,7 +477,9 @@ func journalInput(e *ev.Env, tag string, raw []byte) {
 // injectedLine splits the header block of the first response in b the way a lenient client does
 // (at CRLF or bare LF) and returns the first field name that is not one the application sets,
 // together with the known header line before it.
-func injectedLine(b []byte) (name, after string) {
+// Only a name that the sender of src supplied counts (src nil: any): a header the framework adds
+// on its own is nobody's injection.
+func injectedLine(b []byte, src []byte) (name, after string) {
 	end := bytes.Index(b, []byte("\r\n\r\n"))
 	if end < 0 {
 		end = len(b)
@@ -501,7 +503,88 @@ func injectedLine(b []byte) (name, after string) {
 			}
 			continue
 		}
+		if src != nil && indexFold(src, n) < 0 {
+			continue
+		}
 		return string(l[:k]), after
 	}
 	return "", ""
+}
+
+// cookieAttr matches one cookie attribute as a server writes it (any order, spelling or date).
+var cookieAttr = regexp.MustCompile(`(?i)^(path=[^;]*|domain=[^;]*|expires=[^;]*|max-age=-?\d+|secure|httponly|samesite(=\w+)?|partitioned|priority=\w+)$`)
+
+// splitCookieAttrs strips cookie attributes from the end of a Set-Cookie line's text (after
+// "name="): what remains is the raw value, which may itself contain ';'.
+func splitCookieAttrs(text []byte) (value []byte, attrs string) {
+	for {
+		i := bytes.LastIndex(text, []byte(";"))
+		if i < 0 {
+			return text, attrs
+		}
+		tail := bytes.TrimSpace(text[i+1:])
+		if !cookieAttr.Match(tail) {
+			return text, attrs
+		}
+		if attrs == "" {
+			attrs = string(tail)
+		} else {
+			attrs = string(tail) + "; " + attrs
+		}
+		text = text[:i]
+	}
+}
+
+// flashCookieAt finds the next Set-Cookie line for the flash cookie in b at or after off and
+// returns its raw value, its attributes and the offset behind the line (-1 when there is none).
+// The line ends at the first CRLF behind which the text ends in a cookie attribute (a raw value
+// may contain line breaks), else at the first CRLF.
+func flashCookieAt(b []byte, off int) (value []byte, attrs string, next int) {
+	for off < len(b) {
+		i := indexFold(b[off:], "set-cookie:")
+		if i < 0 {
+			return nil, "", -1
+		}
+		p := off + i + len("set-cookie:")
+		for p < len(b) && (b[p] == ' ' || b[p] == '\t') {
+			p++
+		}
+		name := fiber.FlashCookieName + "="
+		if !bytes.HasPrefix(b[p:], []byte(name)) {
+			off = p
+			continue
+		}
+		p += len(name)
+		first := -1
+		for q := p; q+1 < len(b); q++ {
+			if b[q] != '\r' || b[q+1] != '\n' {
+				continue
+			}
+			if first < 0 {
+				first = q
+			}
+			if v, a := splitCookieAttrs(b[p:q]); a != "" {
+				return v, a, q + 2
+			}
+			if q-p > 1<<16 {
+				break
+			}
+		}
+		if first < 0 {
+			first = len(b)
+		}
+		v, a := splitCookieAttrs(b[p:first])
+		return v, a, min(first+2, len(b))
+	}
+	return nil, "", -1
+}
+
+func indexFold(b []byte, lower string) int {
+	n := len(lower)
+	for i := 0; i+n <= len(b); i++ {
+		if strings.EqualFold(string(b[i:i+n]), lower) {
+			return i
+		}
+	}
+	return -1
 }
